@@ -130,6 +130,18 @@ Example C18_parse_define_examples :
      Some (B "x", XFloat (B "1.5e3")); Some (B "x", XBytes (B "a=b")); None; Some (B "x", XBool true)].
 Proof. vm_compute. reflexivity. Qed.
 
+(* `list-modules` / `yr -M`: the library's module names, each once, in ascending byte order *)
+Theorem C18_list_modules :
+  forall available, Permutation (list_modules available) available /\ SortedB (list_modules available).
+Proof. exact list_modules_sorted_perm. Qed.
+
+(* `yr`: accepted iff a target and at least one rules argument are given, exactly one with -C *)
+Theorem C18_yr_args :
+  forall load positional,
+    from_yr_args false load positional <> YrError <->
+    (2 <= length positional)%nat /\ (load = true -> length positional = 2%nat).
+Proof. exact from_yr_args_ok. Qed.
+
 (* non-vacuity: a terminal state is reachable (2 files, a producer line, 2 workers, capacity 10),
    with the blocks of the two files interleaved *)
 Example C18_example_run :
@@ -165,6 +177,8 @@ Print Assumptions C18_threads_positive.
 Print Assumptions C18_threads_pinned_refuted.
 Print Assumptions C18_params.
 Print Assumptions C18_split_once.
+Print Assumptions C18_list_modules.
+Print Assumptions C18_yr_args.
 Print Assumptions C18_parse_i64_range.
 Print Assumptions C18_render.
 Print Assumptions C18_limit.
